@@ -626,6 +626,17 @@ func runCase(nc netCase, ticks int) {
 		return
 	}
 	defer vm.Shutdown()
+	// half of the nets are run the way `bondmachine -sim` and SinglePipelineSimulate run them: a second VM
+	// takes a snapshot of the live one after every tick (it must not disturb it)
+	var snap *bondmachine.VM
+	if nc.envSeed%2 == 0 {
+		snap = new(bondmachine.VM)
+		snap.Bmach = bm
+		snap.SimDelayMap = vm.SimDelayMap
+		if err := snap.Init(); err != nil {
+			snap = nil
+		}
+	}
 	for i := range vm.Inputs_regs {
 		vm.Inputs_regs[i] = uint8(0)
 	}
@@ -752,6 +763,17 @@ func runCase(nc netCase, ticks int) {
 				b, b2s(ps), b, bools(cs), b, b2s(wp), b, bools(wc))
 		}
 		out.Line("%s", sb.String())
+		if snap != nil {
+			if r := common.Guard(func() string {
+				if err := snap.CopyState(vm); err != nil {
+					return "G err"
+				}
+				return ""
+			}); r != "" {
+				out.Line("G err")
+				break
+			}
+		}
 	}
 	for b := range nc.bonds {
 		out.Line("W %d %s", b, ints(written[b]))
